@@ -847,7 +847,11 @@ def _atomic_only_non_containers(ctx, rule):
     # how are atomic values compared?  (diff_dicts: the arm taken when the differ table is not consulted)
     dd = repo.func('nbdime.diffing.generic:diff_dicts')
     cmp_names = {dotted(c.func) for c in calls_in(dd, nested=False) if dotted(c.func) in ('compare_strict', 'strict_equal')}
-    deep_compare = cmp_names == {'strict_equal'}
+    # ... and in diff_lists: items the default predicate (compare_strict) pairs are not diffed further when atomic; that predicate is plain == on
+    # containers unless it recurses itself
+    cs = repo.func('nbdime.diffing.generic:compare_strict')
+    predicate_deep = any(isinstance(c, ast.Call) and dotted(c.func) in ('strict_equal', 'compare_strict') for c in ast.walk(cs))
+    deep_compare = cmp_names == {'strict_equal'} and predicate_deep
     for r in walk_no_nested(fn):
         if not isinstance(r, ast.Return):
             continue
